@@ -3,6 +3,8 @@ package checks
 import (
 	"bytes"
 	"context"
+	"crypto/ed25519"
+	"crypto/rand"
 	"encoding/json"
 	"errors"
 	"fmt"
@@ -55,6 +57,20 @@ func (f *faultCtl) mode(name string) int {
 
 var errProducer = errors.New("producer failed (injected)")
 
+// signFault decides (once per message) whether the message gets a signer that fails at render time.
+func (f *faultCtl) signFault(msg string) bool {
+	if f.off || f.c == nil {
+		return false
+	}
+	name := msg + ".sign"
+	if v, ok := f.picked[name]; ok {
+		return v == 1
+	}
+	v := f.c.Choose("signing:"+msg, 2)
+	f.picked[name] = v
+	return v == 1
+}
+
 func (f *faultCtl) producer(name string, content []byte) func(io.Writer) (int64, error) {
 	return func(w io.Writer) (int64, error) {
 		switch f.mode(name) {
@@ -82,6 +98,12 @@ func c03Build(i, shape int, f *faultCtl) *mail.Msg {
 	body := []byte(fmt.Sprintf("Plain body of message %d.\r\n.dot line\r\nFrom here on, text = with equals signs and a long line that has to be wrapped by the quoted-printable encoder somewhere.\r\nEnd of %d\r\n", i, i))
 	nm := fmt.Sprintf("m%d", i)
 	m.SetBodyWriter(mail.TypeTextPlain, f.producer(nm+".body", body))
+	if shape == 0 && f.signFault(nm) {
+		// S/MIME signing that fails at render time (the API accepts an Ed25519 key, the PKCS#7 signer does not):
+		// WriteTo returns an error before the first byte is written, on a healthy connection
+		_, edKey, _ := ed25519.GenerateKey(rand.Reader)
+		_ = m.SignWithKeypair(edKey, hx.Mat().SignECDSA.Leaf, nil)
+	}
 	switch shape {
 	case 1:
 		html := []byte(fmt.Sprintf("<html><body><p>HTML body of message %d</p>\r\n<p>second paragraph</p></body></html>\r\n", i))
@@ -210,11 +232,29 @@ func c03Exec(r *vf.Run, cfg c03Cfg, c *vf.Chooser) (keys, whats []string) {
 		return
 	}
 	protoStates(r, sess.Transcript)
+	// a failing signer only "fires" if the message got as far as DATA (354)
+	for i := range msgs {
+		if f.picked[fmt.Sprintf("m%d.sign", i)] == 1 {
+			for _, e := range sess.Transcript {
+				if e.Verb == "DATA" && e.Code == 354 {
+					for _, e2 := range sess.Transcript {
+						if e2.Verb == "MAIL" && e2.Txn == e.Txn && strings.Contains(e2.Line, "<"+hx.Sender(i)+">") {
+							f.fired[fmt.Sprintf("m%d.sign", i)] = true
+						}
+					}
+				}
+			}
+		}
+	}
 	// reference renderings of the very Msg objects that were sent, faults switched off
 	f.off = true
 	refs := make([][]byte, cfg.M)
 	for i, m := range msgs {
 		var b bytes.Buffer
+		if f.picked[fmt.Sprintf("m%d.sign", i)] == 1 {
+			refs[i] = []byte("\x00<message whose signing fails: it has no rendering>\x00")
+			continue
+		}
 		if _, err := m.WriteTo(&b); err != nil {
 			r.HarnessError("C03 reference rendering of message %d failed: %v", i, err)
 			return
@@ -320,6 +360,8 @@ func c03Describe(label string, pick int) string {
 	switch {
 	case strings.HasPrefix(label, "producer:"):
 		return label + "=" + []string{"ok", "fail-before-first-byte", "fail-after-half"}[pick]
+	case strings.HasPrefix(label, "signing:"):
+		return label + "=fails"
 	case strings.HasPrefix(label, "transport#"):
 		return label + "=fail " + c03XportNames[pick]
 	case strings.HasPrefix(label, "EOD#") && pick == 4:
@@ -332,7 +374,7 @@ func init() {
 	vf.Register(&vf.Check{
 		ID: "C03", Title: "only complete messages are committed; IsDelivered tells the truth",
 		Run: func(r *vf.Run) {
-			r.SetRule("batches of 1..3 messages over shapes {single, alternative, body+attachment, body+embed}; choice points: every content producer {ok, fail before first byte, fail after half}, transport failure in each DATA phase at {never, first content byte, inside headers, inside a part body, just before the end, inside the end-of-data marker}, server reply at NOOP/MAIL/RCPT/DATA/RSET {ok,4yz,5yz,drop} and at end-of-data {250,4yz,5yz,drop,251}; all vectors with <= k deviations; oracle: server commit log vs. reference rendering of the same Msg objects; distinct by (configuration, choice vector)")
+			r.SetRule("batches of 1..3 messages over shapes {single, alternative, body+attachment, body+embed}; choice points: every content producer {ok, fail before first byte, fail after half}, S/MIME signing of single-part messages {off, fails at render time before the first byte}, transport failure in each DATA phase at {never, first content byte, inside headers, inside a part body, just before the end, inside the end-of-data marker}, server reply at NOOP/MAIL/RCPT/DATA/RSET {ok,4yz,5yz,drop} and at end-of-data {250,4yz,5yz,drop,251}; all vectors with <= k deviations; oracle: server commit log vs. reference rendering of the same Msg objects; distinct by (configuration, choice vector)")
 			r.Assume("the reference rendering is WriteTo on the same Msg after Send with faults disabled (default file encodings; repeatability itself is C11)",
 				"the transport's final CRLF after content that does not end in CRLF is not part of the message")
 			type job struct {
